@@ -472,11 +472,16 @@ func main() {
 	}
 	var reloads []reloadStmt
 	closeToComp := map[string]string{}
+	locals := map[string]ast.Expr{}
 	for _, st := range closeFn.Body.List {
 		switch s := st.(type) {
 		case *ast.AssignStmt:
 			if s.Tok == token.DEFINE && len(s.Lhs) == 1 && len(s.Rhs) == 1 {
 				id, _ := s.Lhs[0].(*ast.Ident)
+				if id != nil && !strings.HasPrefix(id.Name, "close") && id.Name != "currentConf" {
+					// a hoisted comparison (x := newConf != nil && !reflect.DeepEqual(newConf.F, currentConf.F)): resolved where used
+					locals[id.Name] = s.Rhs[0]
+				}
 				if id != nil && strings.HasPrefix(id.Name, "close") {
 					r := &row{CloseVar: id.Name}
 					for _, d := range flattenOr(s.Rhs[0]) {
@@ -516,7 +521,16 @@ func main() {
 			if negated {
 				// the fields compared in the condition; the body must hand exactly these to the running component:
 				//   p.<comp>.Reload…(newConf.<F>)
-				fields := uniq(confFields(s.Cond, "newConf"))
+				fields := confFields(s.Cond, "newConf")
+				ast.Inspect(s.Cond, func(x ast.Node) bool {
+					if id, ok := x.(*ast.Ident); ok {
+						if def, ok := locals[id.Name]; ok {
+							fields = append(fields, confFields(def, "newConf")...)
+						}
+					}
+					return true
+				})
+				fields = uniq(fields)
 				rs := reloadStmt{closeVar: closeVars[0]}
 				for _, bs := range s.Body.List {
 					es, ok := bs.(*ast.ExprStmt)
@@ -546,6 +560,11 @@ func main() {
 					}
 					if len(rs.fields) == 0 {
 						failf("closeResources: %s.%s is handed newConf.%s but the condition compares %v", recv[0], fn.Sel.Name, arg, fields)
+					}
+				}
+				for _, c := range uniq(coreFields(s.Cond)) {
+					if rs.comp != "" && c != rs.comp {
+						failf("closeResources: the in-place reload of %s is conditioned on another component (p.%s)", rs.comp, c)
 					}
 				}
 				if rs.comp == "" {
@@ -593,6 +612,7 @@ func main() {
 
 	// --- join
 	var table []*row
+	var pushes [][3]string // (component whose close variable guards the statement, component pushed into, field)
 	for _, cv := range closeOrder {
 		comp, ok := closeToComp[cv]
 		if !ok {
@@ -610,8 +630,12 @@ func main() {
 		r.CloseRefs = cr.CloseRefs
 		for _, rl := range reloads {
 			if rl.closeVar == cv {
+				for _, f := range rl.fields {
+					pushes = append(pushes, [3]string{comp, rl.comp, f})
+				}
 				if rl.comp != comp {
-					failf("closeResources: under !%s the reload is pushed into %s, not into %s", cv, rl.comp, comp)
+					// guarded by another component's close variable: kept in core_pushes (Props/C13.v: C13_core_pushes_guarded
+					// rejects it), not in the row of either component
 					continue
 				}
 				r.Reload = append(r.Reload, rl.fields...)
@@ -683,6 +707,11 @@ func main() {
 		sb.WriteString("\n")
 	}
 	sb.WriteString("].\n\n")
+	var ps []string
+	for _, pu := range pushes {
+		ps = append(ps, fmt.Sprintf("(%q, %q, %q)", pu[0], pu[1], pu[2]))
+	}
+	fmt.Fprintf(&sb, "(* in-place reload statements of closeResources: `if !close<G> && changed(F) { p.<T>.Reload…(newConf.F) }` as (G, T, F) *)\nDefinition core_pushes : list (string * string * string) := [%s].\n\n", strings.Join(ps, "; "))
 	fmt.Fprintf(&sb, "(* the order in which createResources constructs the components *)\nDefinition create_order : list string := %s.\n", q(order))
 	fmt.Fprintf(&sb, "Definition pointer_fields : list string := %s.\n", q(pointerFields))
 	fmt.Fprintf(&sb, "Definition conf_field_count : nat := %d.\n", len(allFields))
@@ -690,7 +719,7 @@ func main() {
 		fmt.Fprintln(os.Stderr, err)
 		os.Exit(2)
 	}
-	nb, _ := json.MarshalIndent(map[string]any{"table": table, "create_order": order, "pointer_fields": pointerFields, "failures": fails, "conf_fields": allFields}, "", " ")
+	nb, _ := json.MarshalIndent(map[string]any{"table": table, "create_order": order, "pointer_fields": pointerFields, "failures": fails, "conf_fields": allFields, "pushes": pushes}, "", " ")
 	os.WriteFile(notesPath, nb, 0o644)
 	if len(fails) > 0 {
 		fmt.Fprintln(os.Stderr, "translation failures:\n"+strings.Join(fails, "\n"))
